@@ -165,7 +165,8 @@ def build_drivers(scratch, pkg="./drivers", overlay=None, tags="verif", name="dr
     return out
 
 
-def run_driver(scratch, binary, test, seed, tier, out, extra_env=None, timeout=3000, replay=None):
+def run_driver(scratch, binary, test, seed, tier, out, extra_env=None, timeout=None, replay=None):
+    timeout = timeout or (900 if tier == 'quick' else 5400)
     env = goenv()
     env.update({"VERIF_SEED": str(seed), "VERIF_TIER": tier, "VERIF_OUT": out, "GOLOG_LOG_LEVEL": "fatal",
                 "VERIF_SUMMARY": out + ".summary.json"})
